@@ -15,7 +15,7 @@ import logging
 
 from sim import devices
 from sim.canon import Log, dec_table, enc, canon_rows, canon_row
-from sim.core import outcome, ddmin_lists
+from sim.core import outcome, ddmin_lists, draw_config
 from sim.devices import SimStore, SimClock, SimTable
 from sim.gen import gen_table, FIELDS
 from sim.loader import load_petl
@@ -122,6 +122,7 @@ def gen_case(rng, tier, g):
                               'partial-drop-full', 'full-full',
                               'partial-partial-full'])
         return {'prop': PROP, 'machine': 'tee', 'fmt': fmt, 'args': args,
+                'config': draw_config(rng, 0.25, exclude=('sort_buffersize',)),
                 'table': table, 'history': history,
                 'partial': rng.randint(0, n + 1),
                 'rowtype': rng.choice(['copy', 'alias'])}
@@ -469,6 +470,10 @@ def shrink_candidates(case):
                     c = copy.deepcopy(case)
                     c['table'][i][j] = 'x'
                     yield c
+        if case.get('config'):
+            c = copy.deepcopy(case)
+            c['config'] = None
+            yield c
     elif case['machine'] == 'timing':
         for s in ddmin_lists(case['script']):
             if s:
